@@ -53,6 +53,15 @@ Definition is_rec (T : entry_tables) (ty : string) : bool :=
 Definition is_reclist (T : entry_tables) (ty : string) : bool :=
   match beh_of (t_ebeh T) ETable ty with ERecList _ => true | _ => false end.
 
+(* the go/ast kinds at which a structural pre-match pattern (an Or of struct nodes) can succeed *)
+Fixpoint head_kinds (p : pat) : list string :=
+  match p with
+  | PNode ty _ => [ty]
+  | POr ps => (fix go (l : list pat) : list string :=
+                 match l with [] => [] | q :: l' => head_kinds q ++ go l' end) ps
+  | _ => []
+  end%list.
+
 (* the finite obligations on the regenerated tables from which entry_sound follows *)
 Definition tables_ok (T : entry_tables) : bool :=
   (* allTypes contains every kind that has a struct pattern node of its own (a row that is exactly [itself]) *)
@@ -71,7 +80,24 @@ Definition tables_ok (T : entry_tables) : bool :=
                     match ta_pre k PAny with
                     | Some q => incl_b (entry_kinds T q) (row_of T k)
                     | None => incl_b (t_all T) (row_of T k)
+                    end) ta_kinds &&
+  (* ... including the kinds outside allTypes (Symbol at IndexListExpr) *)
+  forallb (fun k => match ta_pre k PAny with
+                    | Some q => incl_b (head_kinds q) (row_of T k)
+                    | None => true
                     end) ta_kinds.
+
+(* patterns without a start-anywhere alternative at their root (through Or and bindings with a node): struct
+   nodes of allTypes and type-aware nodes with a structural pre-match; for them entry_sound holds at EVERY kind *)
+Fixpoint tight (T : entry_tables) (p : pat) : bool :=
+  match p with
+  | PNode ty _ => mem ty (t_all T)
+  | PTypeAware k _ => match ta_pre k PAny with Some _ => true | None => false end
+  | POr ps => (fix go (l : list pat) : bool := match l with [] => true | q :: l' => tight T q && go l' end) ps
+  | PBinding _ _ sub => negb (is_nilpat sub) && tight T sub
+  | PString _ | PToken _ | PList _ _ | PNil | PNone => true     (* never match a node *)
+  | PAny | PNot _ => false
+  end.
 
 (* names of pattern node types that are not go/ast struct nodes (they have cases of their own in the type
    switches of parser.go); a PNode never carries one of them *)
